@@ -10,7 +10,7 @@ if HERE not in sys.path:
 from .world import World
 from .contract import Registry
 
-CONTRACT_MODULES = ['checks', 'rules', 'external', 'enforce', 'deprecated', 'validate', 'parser', 'loader', 'shell', 'generator']
+CONTRACT_MODULES = ['checks', 'rules', 'external', 'enforce', 'deprecated', 'validate', 'parser', 'loader', 'loading', 'shell', 'generator']
 
 
 def build():
@@ -28,4 +28,6 @@ def build():
             mod.register_chain(reg, stubs, world)
         if hasattr(mod, 'register_chain2'):
             mod.register_chain2(reg, stubs, world)
+        if hasattr(mod, 'register_chain3'):
+            mod.register_chain3(reg, stubs, world)
     return world, reg, stubs
